@@ -270,7 +270,8 @@ def r5(cx):
                 if ed and puts:
                     skips = False
                     for tgt, lab in ed.items():
-                        r2 = cb.reachable_from([tgt], avoid=puts)
+                        # (variant-aware: an error that travels back through a spliced helper's `?` does not continue the loop)
+                        r2 = feasible_reach(cb, [tgt], avoid=puts)
                         nexts = [x.bb for x in cb.calls if x.bb in cb.live and x.primary.split("::")[-1] == "next" and cb.in_cycle(x.bb)]
                         if any(x in r2 for x in nexts) or any(x in r2 for x, k in exits(cb) if k in ("ok", "tail")):
                             skips = True
